@@ -6,7 +6,7 @@
 import sys, os, subprocess, json, shutil, time
 pid, x = sys.argv[1], sys.argv[2]
 root = os.environ.get("SEED_ROOT", "/tmp/seed")
-name = {"A": "C", "B": "D"}[x] if root.endswith("seed2") else x       # second round is stored as <id>C / <id>D
+name = {"A": "C", "B": "D"}[x] if root.endswith("seed2") else ({"A": "E", "B": "F"}[x] if root.endswith("seed3") else x)      # later rounds are stored as <id>C/D, <id>E/F
 src = "%s/%s/out/%s" % (root, pid, x)
 wt = "/tmp/confirm_%s%s" % (pid, name)
 dst = "/verif/seeded/%s%s" % (pid, name)
